@@ -19,6 +19,28 @@ CLAIMED = {
             "Trusted: Coq kernel; hand-written model coq/model/Cascade.v validated by correspondence; constants (tol*10 window, 6-dp "
             "rounding, latent width) regenerated from /repo; float rounding not proved (targets compared to 1e-6 of total duty); zone "
             "membership of streams taken from the implementation (C10); Robust/lattice hypotheses of the theorems."),
+    "C02": ("DESIGN.md 8/C02",
+            "Theorems: the direct-integration record of any zone is balanced (Qh-Qc = cold duty - hot duty, Qr = hot duty - Qc, all >= 0); the "
+            "sum of balanced zonal records is balanced for the union of the zones' streams (any number of zones); the two ends of the site "
+            "utility cascade differ by the net utility duty for ANY duties/levels and are >= 0; hence the total-site record is balanced "
+            "whenever each zone's utilities sum to its targets (C03). Tie: EVERY record the service returns is judged in coqc against the "
+            "duties of the input streams it covers (targets and listed hot/cold utility duties).",
+            "As C01. Total-site balance is conditional on C03's conclusion per zone (open finding D24: gliding cold user utilities)."),
+    "C09": ("DESIGN.md 8/C09",
+            "Theorems on the model of the site utility cascade (max(h)-h on the cascade of the summed utilities), any utility sets: Qh_TS <= "
+            "total hot-utility duty, Qc_TS <= total cold-utility duty; if the utilities release at every temperature at least the site's net "
+            "deficit above it (zonal feasibility summed over the partition) then Qh_TS >= the deficit above ANY temperature = the site's own "
+            "direct-integration target; Qr_TS identity; duties additive over partitions. Tie: the three site records and all zonal DI "
+            "records of every generated site are judged in coqc: additivity value-by-value and utility-by-utility, both bounds, the site DI "
+            "record against the exact reference, recovery identity.",
+            "As C01; the lower bound theorem is conditional on C04 feasibility (open findings D24/D39 for gliding user utilities)."),
+    "C12": ("DESIGN.md 8/C12",
+            "Theorems: the exact net-deficit function is invariant at every temperature under permutation of streams, splitting a stream at "
+            "an intermediate temperature or into parallel branches, translates with a uniform shift, scales with the duties, and under "
+            "mirroring becomes D + hot duty - cold duty (so Qh and Qc swap); a transfer theorem moves each invariance to the attained supremum, "
+            "i.e. (by C01) to the direct-integration targets. Total-site records, utility duties and pinch temperatures are decided by "
+            "running the implementation on every problem together with its seven transformed twins and relating EVERY record pair in coqc.",
+            "As C01; zone renaming/reordering and the non-DI records rest on the twin comparison only."),
     "C05": ("DESIGN.md 8/C05",
             "Theorems: on the model table, at every row, H_hot = exact heat of hot streams below T, H_cold = Qc + exact heat of cold "
             "streams below T, H_net = H_cold - H_hot = Qh - net deficit above T >= 0 and touches 0; curves span exactly the stream "
